@@ -67,7 +67,8 @@ IpVals == { <<P4(10,0,0,0,8)>>, <<P4(10,1,2,3,32)>>, <<P4(10,1,2,2,31)>>, <<P4(0
             <<Pfx(6, V4Pad \o <<10,1,2,3>>, 128)>>,
             <<P4(10,1,2,3,32), Pfx(6, V6(1).b, 128)>>, <<P4(10,1,2,3,8), P4(10,1,0,0,16)>> }
 PortVals == { <<<<53,53>>>>, <<<<52,54>>>>, <<<<0,1023>>>>, <<<<1024,65535>>>>, <<<<0,65535>>>>, <<<<65535,65535>>>>,
-              <<<<53,53>>, <<1024,65535>>>>, <<<<0,0>>, <<54,1023>>>> }
+              <<<<53,53>>, <<1024,65535>>>>, <<<<0,0>>, <<54,1023>>>>,
+              <<<<1024,53>>>>, <<<<65535,0>>>> }          \* descending ranges are accepted by the parser: they contain no port
 L4Vals == { <<"tcp">>, <<"udp">>, <<"tcp","udp">> }
 IpvVals == { <<4>>, <<6>>, <<4,6>> }
 MacVals == { <<Mac1>>, <<Mac2>>, <<Mac1, Mac2>> }
